@@ -81,9 +81,11 @@ def schedules(steps, max_abandon, max_crash):
         if not r.ok:
             raise MachineryError("Sessions model failed: %s %s" % (r.summary(), r.errors[:2]))
         out = []
-        for ln in r.stdout.splitlines():
+        for ln in r.prints:
             if ln.startswith('<<"SCHED"'):
-                out.append([(m.group(1), int(m.group(2))) for m in re.finditer(r'<<"(step|abandon|crash)", (\d+)>>', ln)])
+                out.append([(m.group(1), int(m.group(2))) for m in re.finditer(r'<<"(step|abandon|crash)",\s*(\d+)>>', ln)])
+        if not out:
+            raise MachineryError("no schedule exported by TLC")
         return out, r
     finally:
         shutil.rmtree(tmp, ignore_errors=True)
